@@ -64,12 +64,21 @@ def translate(ctx):
 TYPES_W = [("wuint", []), ("wreal", ["3"])]     # WeightedLabeledData<I, unsigned> (harness/c03w.cpp)
 
 
-def build(ctx):
+def build_main(ctx):
     return ctx.harness("c03", ["c03.cpp"], repo_sources=["src/Core/Random.cpp"])
 
 
 def build_w(ctx):
     return ctx.harness("c03w", ["c03w.cpp"], repo_sources=["src/Core/Random.cpp"])
+
+
+def build(ctx):
+    """both harnesses (used by ./setup); the two TUs compile side by side"""
+    from concurrent.futures import ThreadPoolExecutor
+    with ThreadPoolExecutor(max_workers=2) as ex:
+        fe, fw = ex.submit(build_main, ctx), ex.submit(build_w, ctx)
+        exe, exew = fe.result(), fw.result()
+    return exe if exe and exew else None
 
 
 # ----------------------------------------------------------------------------- generator
@@ -252,10 +261,8 @@ def run(ctx):
     ctx.prove(["SharkVerif.Props.C03"])
     if not ctx.quick:
         ctx.leanchecker(["SharkVerif.Props.C03"])
-    from concurrent.futures import ThreadPoolExecutor
-    with ThreadPoolExecutor(max_workers=2) as ex:      # the two harness TUs compile side by side
-        fe, fw = ex.submit(build, ctx), ex.submit(build_w, ctx)
-        exe, exew = fe.result(), fw.result()
+    exe = build(ctx)
+    exew = build_w(ctx) if exe else None               # cached after build()
     drv = ctx.driver("drv_c03")
     if not exe or not exew or not drv:
         return
@@ -320,7 +327,7 @@ def replay(ctx, rep):
     drv = ctx.driver("drv_c03")
     cmd = list(rep.get("harness_cmd", ["", "uint"]))
     ty = cmd[1] if len(cmd) > 1 else "uint"
-    exe = build_w(ctx) if ty.startswith("w") else build(ctx)
+    exe = build_w(ctx) if ty.startswith("w") else build_main(ctx)
     cmd[0] = exe
     shape = dict(TYPES + TYPES_W).get(ty, [])
     feed = os.path.join(core.VERIF, "tools", "obsfeed.py")
